@@ -434,6 +434,11 @@ def rnd_memory(ctx):
                     def getattr_(self, a, interp):
                         return f'CellType.{a}'
                 return NS()
+            if name in ('logger', 'logging'):
+                class Null(AbsObj):
+                    def getattr_(self, a, interp):
+                        return Fn(lambda *a, **k: None)
+                return Null()
             raise KeyError(name)
 
         def on_unknown_call(self, f, args, kwargs, node, interp):
